@@ -84,6 +84,7 @@ def run(rep, tier, seed):
     rng = random.Random(seed)
     rep.broken = []
     rep.compared = 0
+    rep.trail = []
     ntab = 250 if tier == 'thorough' else 40
     model_reqs, model_meta = [], []
     for _ in range(ntab):
@@ -112,11 +113,12 @@ def run(rep, tier, seed):
                 pass
             for name, x in produced:
                 err = check_expr(L, x, le)
+                rep.trail.append({'table': T, 'tree': enc_expr(x)})
                 rep.case((repr(T), str(x), name), nontrivial=not isinstance(x, le.BaseSymbol),
                          sample={'table': T, 'producer': name, 'rendering': str(x)})
                 rep.count('producer_' + name)
                 if err:
-                    rep.violations.append({'key': 'roundtrip', 'kind': 'expr', 'table': T, 'tree': enc_expr(x),
+                    rep.violations.append({'key': 'roundtrip', 'kind': 'expr', 'table': T, 'tree': enc_expr(x), '_at': len(rep.trail) - 1,
                                            'text': str(x), 'what': '%s result: %s' % (name, err)})
                     continue
                 model_reqs.append((14, enc_expr(x)))
